@@ -245,7 +245,7 @@ package components
 //@   atcall (*os.File).WriteString writes-the-line-just-read-to-the-current-part[C19]: $arg0 == splitFile && $arg1 == scanLine(scanner, scanPos[scanner] - 1) + "\n"
 //@   atcall (*os.File).Close part-holds-at-most-the-line-limit[C19]: $arg0 == splitFile ==> fwN[splitFile] <= p.LinesPerSplit && (forall j int :: 0 <= j && j < fwN[splitFile] ==> fwAt[splitFile][j] == scanLine(scanner, (splitNo - 1) * p.LinesPerSplit + j) + "\n")
 //@   atcall FinalizePaths finalizes-the-part-just-closed[C19]: len($arg1) == 1 && $arg1[0] == splitIP && $arg0 == taskDir
-//@   atcall (*OutPort).Send sends-the-part-just-finalized[C19]: $arg1 == splitIP
+//@   atcall (*OutPort).Send sends-the-part-just-finalized[C19]: $arg1 == splitIP && finalizeTried[splitIP]
 //@   atcall (*FileSplitter).newSplitIPFromIndex parts-are-numbered-consecutively-from-one[C19]: $arg2 == splitNo && $arg1 == inIP.path
 //@   loop 0 invariant stable: p == old(p) && splitterOK(p) && p.outPorts == old(p.outPorts) && p.inPorts == old(p.inPorts)
 //@   loop 1 invariant stable: p == old(p) && splitterOK(p) && p.outPorts == old(p.outPorts) && p.inPorts == old(p.inPorts) && scanner != nil && splitFile != nil && validIP(splitIP) && !splitIP.doStream && len(splitIP.path) > 0 && inIP != nil
